@@ -228,6 +228,9 @@ class Report:
         os.makedirs(os.path.join(VERIF, "evidence"), exist_ok=True)
         rd = os.path.join(VERIF, "replays", self.pid)
         os.makedirs(rd, exist_ok=True)
+        for old in os.listdir(rd):
+            if old.endswith(".json"):
+                os.remove(os.path.join(rd, old))
         for setf, (n, ex, what) in sorted(self.set_hits.items()):
             print("KNOWN-FINDING: property=%s %s :: %d listed inputs of %s reproduced, e.g. %s" % (self.pid, what, n, setf, ex))
         for key, what in sorted(self.known_hit.items()):
